@@ -557,6 +557,7 @@ class CExec:
         self.features = set()
         self.stats = {"max_trip": 0}
         self.depth = 0
+        self.lenient_calls = False  # True: unknown functions (cache hints, barriers) are effect-free
 
     def new_frame(self):
         D = self.D
@@ -924,6 +925,10 @@ class CExec:
         if name == "fatal":
             return Val(D, D.bv(32, 0), ("void", 32)), st
         if name == "MEM_STORE0":
+            return Val(D, D.bv(32, 0), ("void", 32)), st
+        if self.lenient_calls:
+            for a in args:
+                _, st = self.ex(a, st, pc, scope, fr)
             return Val(D, D.bv(32, 0), ("void", 32)), st
         raise Unsupported(f"unknown function {name}")
 
